@@ -246,7 +246,8 @@ def run_one(ch, cfg):
                        "unlock": [0xFE, 0x41, 0x06, 0x02]}.get(command, [0xFE, 0x04, 0x43, 0xFF]),
                       "link-fault.ins")
         nth = ch.pick([0, 0, 1, 8, 31], "link-fault.nth")
-        lkind = ch.pick(["timeout_after", "read_err_after", "timeout_before", "write_err"], "link-fault.kind")
+        lkind = ch.pick(["timeout_after", "read_err_after", "timeout_before", "write_err", "timeout_late"],
+                        "link-fault.kind")
         seen_ins = {"n": 0}
 
         def lfn(i, apdu):
